@@ -22,7 +22,29 @@ def gen_faulty(r, tier):
         f1, f2 = r.sample(["pwmread", "pwmwrite", "moderead", "modewrite", "rpmread"], 2)
         val = lambda f: r.pick(["perm", "other:-1", "other:0"]) if f.endswith("read") else r.pick(["refused", "ignored"])
         c[k:k] = [f"w.dev {f1}={val(f1)} {f2}={val(f2)}"]
+        if r.chance(0.3):
+            # the PWM register READS fine but holds a number no PWM value can be (a driver bug, a foreign writer, a cmd fan's
+            # script printing nonsense): nothing may use it unchecked (seed C09h: index into a 256-entry table)
+            k2 = r.range(2, len(c))
+            c[k2:k2] = [f"w.dev pwm={r.pick([-1, 256, 4096, 65535, -300])}"]
         ops += c
+    return ops
+
+
+def gen_glitch(r, tier):
+    """controller worlds in which a SINGLE read of the PWM register fails now and then (sporadic EIO, a read racing a rewrite
+    of the file): the k-th read from now on, so that the failure falls on the feature probe, on the read behind it, or on a
+    read of a later cycle - every operation has to come back (oracle-only: a one-off failure is not a state of the model's
+    device; seed C09g: a lock taken for the read was not released on the error path, the next write blocked for ever)"""
+    ops = []
+    for _ in range(60 if tier == "quick" else 1500):
+        c = streams.gen_world_case(r, n_events=30, faults=False, malformed=False, kind=r.pick(["hwmon", "hwmon", "file"]))
+        out = []
+        for op in c:
+            if op.startswith(("w.cycle", "w.setpwm", "w.restore")) and r.chance(0.3):
+                out.append(f"w.dev glitch={r.pick([1, 2, 2, 3, 4, 5])}")
+            out.append(op)
+        ops += out + ["w.dev glitch=0", "w.restore"]
     return ops
 
 
@@ -73,6 +95,7 @@ class C09(Prop):
                    "panics inside dependencies (pterm, echo, prometheus) and runtime fatal errors (out of memory, concurrent map access: C20) are outside the model; the daemon runs sample them"]
     partial_note = "process level is sampled: the daemon runs inject a handful of fault shapes at random instants; the model-level theorems quantify over all fault scripts"
     streams = [Stream("faulty", gen_faulty, parallel=8), Stream("curve-faults", gen_curve_faults, parallel=8),
+               Stream("glitch", gen_glitch, parallel=8, exact=False, contract=lambda op, a, b: True),
                Stream("sensor", lambda r, tier: streams.gen_sensors(r, 40 if tier == "quick" else 400), parallel=8, timeout=1800)]
 
     def oracle(self, name, ops, go):
